@@ -343,13 +343,17 @@ CHECKS["C19"] = {
              "a schedule is the sequence of which parked goroutine is released. exhaustive: every schedule of each fixed program (6..51 for two goroutines, more for three); random: rapid-drawn programs with up to 60 schedule choices. "
              "Oracle: exactly one Set returns true; every Get/Err/IsSet that starts after some Set returned sees the winner's error; an observer that finds the channel closed immediately reads IsSet()==true and the winner's error; all Signal()/Get() calls return the same channel, "
              "closed once the winning Set / Close returned; every Wait returns (no lost wake-up: no goroutine left blocked with nothing enabled); no panic. "
-             "Non-trivial: every enumerated program; a random case with >= 4 scheduling steps. Distinct by program + schedule."),
+             "stress: 1..4 setters (each with its own non-nil error) and 1..4 observers on real goroutines, 50..400 fresh signals per case; observers poll Get / IsSet+Err / the channel until they see the signal set, then Wait; "
+             "exactly one Set returns true, an observer never sees 'set' with a nil error nor any error but the winner's, a closed channel implies a visible error (the interleavings inside the lock-free fast paths, which have no scheduling point). "
+             "Non-trivial: every enumerated program; a random case with >= 4 scheduling steps; a stress case with >= 2 setters. Distinct by program + schedule."),
     "assumptions": ["interleavings are enumerated between scheduling points, not between individual memory operations; weak-memory reorderings of the atomics are outside this check",
                     "misuse by the channel contract is not generated: double Chan.Close, Send on a closed Chan, Full concurrently with Send/Recv"],
     "subs": [
         {"test": "TestC19Exhaustive", "prop": "C19/exhaustive", "quick": 1, "thorough": 1, "shards": 1, "gomaxprocs": 1},
         {"test": "TestC19Random", "prop": "C19/random", "quick": 24000, "thorough": 800000, "shards_quick": 16, "shards_thorough": 16, "gomaxprocs": 1},
         {"test": "TestC19Random", "prop": "C19/random", "thorough": 48000, "shards_thorough": 16, "gomaxprocs": 1, "race": True, "thorough_only": True},
+        # real goroutines, no director (see harness/signal/stress_test.go): interleavings inside the lock-free fast paths
+        {"test": "TestC19Stress", "prop": "C19/stress", "quick": 800, "thorough": 40000, "shards_quick": 4, "shards_thorough": 8},
     ],
     "floors": {"C19/random": {"signal": 0.4, "chan": 0.2, "goroutines_3": 0.3}},
 }
